@@ -957,16 +957,57 @@ def run(chk, repo):
     kv = lam[0].args.args[0].arg
     outer = lam[0].body.args[0]
     ok = isinstance(outer, ast.GeneratorExp) and unparse(outer.generators[0].iter) == "enumerate(xv)"
+    prod_defs = [s_ for s_ in docstring_free(lf.body) if isinstance(s_, ast.Assign) and len(s_.targets) == 1
+                 and isinstance(s_.targets[0], ast.Name) and isinstance(s_.value, ast.Lambda)]
+    prod_ok = {s_.targets[0].id for s_ in prod_defs if len(s_.value.args.args) == 1 and unparse(s_.value.body) in (
+        "reduce(operator.mul, %s)" % s_.value.args.args[0].arg, "reduce(lambda a, b: a * b, %s)" % s_.value.args.args[0].arg)}
+
+    def _as_genexp(call_):
+        """G of a call of a local generator function ``def g(a, b): for t in S: [if P:] yield E`` with the arguments bound"""
+        gd = [f_ for f_ in lf.body if isinstance(f_, FuncTypes) and isinstance(call_.func, ast.Name) and f_.name == call_.func.id]
+        if len(gd) != 1 or call_.keywords or len(call_.args) != len(gd[0].args.args):
+            return None
+        b_ = docstring_free(gd[0].body)
+        if len(b_) != 1 or not isinstance(b_[0], ast.For) or b_[0].orelse or len(b_[0].body) != 1:
+            return None
+        inner, ifs = b_[0].body[0], []
+        while isinstance(inner, ast.If) and not inner.orelse and len(inner.body) == 1:
+            ifs.append(inner.test)
+            inner = inner.body[0]
+        if not (isinstance(inner, ast.Expr) and isinstance(inner.value, ast.Yield) and inner.value.value is not None):
+            return None
+        ren_ = dict((p_.arg, unparse(a_)) for p_, a_ in zip(gd[0].args.args, call_.args))
+        if not all(isinstance(a_, ast.Name) for a_ in call_.args):
+            return None
+
+        class _R(ast.NodeTransformer):
+            def visit_Name(self, n):
+                return ast.Name(id=ren_.get(n.id, n.id), ctx=n.ctx)
+        mk = lambda e_: _R().visit(ast.parse(unparse(e_), mode="eval").body)
+        return ast.GeneratorExp(elt=mk(inner.value.value), generators=[ast.comprehension(
+            target=mk(b_[0].target), iter=mk(b_[0].iter), ifs=[mk(t_) for t_ in ifs], is_async=0)])
     if ok:
         j, rj = [unparse(e) for e in outer.generators[0].target.elts]
         e = outer.elt
         ok = isinstance(e, ast.BinOp) and isinstance(e.op, ast.Mult)
         if ok:
             y, pr = (e.left, e.right) if isinstance(e.right, ast.Call) else (e.right, e.left)
-            ok = unparse(y) == "yv[%s]" % j and isinstance(pr, ast.Call) and unparse(pr.func) == "prod" \
-                and isinstance(pr.args[0], ast.GeneratorExp)
-            if ok:
+            # the product of the factors: prod(G) with prod a local reduce(operator.mul, .), or that reduce in line
+            ig = None
+            if isinstance(pr, ast.Call) and isinstance(pr.func, ast.Name) and pr.func.id in prod_ok and len(pr.args) == 1:
                 ig = pr.args[0]
+            elif isinstance(pr, ast.Call) and unparse(pr.func) == "reduce" and len(pr.args) == 2 \
+                    and unparse(pr.args[0]) in ("operator.mul", "lambda a, b: a * b"):
+                ig = pr.args[1]
+            if isinstance(ig, ast.Call):
+                ig = _as_genexp(ig)
+            if ig is None or not isinstance(ig, ast.GeneratorExp):
+                if isinstance(pr, ast.Call) and isinstance(pr.func, ast.Name) and pr.func.id == "prod" and not prod_ok:
+                    ok = False      # a prod that does not multiply
+                else:
+                    raise AnalysisError("lagrange.func: product of the basis factors not recognised in %s" % short(e))
+            ok = ok and unparse(y) == "yv[%s]" % j
+            if ok:
                 rk = unparse(ig.generators[0].target)
                 try:
                     term = Evaluator().ev(ig.elt)
@@ -980,9 +1021,6 @@ def run(chk, repo):
     un = [s for s in docstring_free(lf.body) if isinstance(s, ast.Assign) and unparse(s.targets[0]) in ("(xv, yv)", "xv, yv")]
     chk.decide(len(un) == 1 and unparse(un[0].value) in ("xzip(*pairs)", "zip(*pairs)"), "C07.lagrange", W("lagrange[func]"),
                short(un[0]) if un else "unzip missing", why="abscissae first, ordinates second", node=lf)
-    pd = [s for s in docstring_free(lf.body) if isinstance(s, ast.Assign) and unparse(s.targets[0]) == "prod"]
-    chk.decide(len(pd) == 1 and unparse(pd[0].value) == "lambda args: reduce(operator.mul, args)", "C07.lagrange",
-               W("lagrange[func]"), short(pd[0]) if pd else "prod missing", why="prod must multiply", node=lf)
     lpoly = repo.strategy(LP, "lagrange", "poly").node
     chk.decide(unparse(docstring_free(lpoly.body)[-1]) == "return lagrange.func(pairs)(x)", "C07.lagrange",
                W("lagrange[poly]"), short(docstring_free(lpoly.body)[-1]), why="interpolating polynomial = the function "
